@@ -896,6 +896,16 @@ impl Harness for HttpSys {
             violations.push(Violation::new(prop, "engine-deadlock", "engine-deadlock", format!("all simulated threads blocked without a timer: {:?}", d)));
             return Outcome { violations, fingerprint: report.log_hash, signature: None };
         }
+    for (name, len, used) in aquatic_verif_rt::alloc::take_excess() {
+        if !(name.starts_with("client") || name == "operator" || name == "root" || name == "net") {
+            violations.push(Violation::new("C12", "allocation-bounded-by-input", "allocation-bound", format!("tracker thread {} allocated {} bytes while handling a {}-byte network input (> 64 x input + 1 MiB)", name, used, len)));
+        }
+    }
+    let (ml, mu) = aquatic_verif_rt::alloc::take_max();
+    if mu > 0 {
+        stats.probe_n("largest-allocation-per-input-kib", mu / 1024);
+        let _ = ml;
+    }
         // ---- tracker-thread panics that were not injected
         let injected: BTreeSet<String> = fired_at.iter().filter(|f| f.1 == "panic").map(|f| f.0.clone()).collect();
         let mut unplanned_death = false;
